@@ -142,10 +142,41 @@ struct checker {
                     pt::set_pix(cv(x, y), one);
                 }
         }
+        raw_data_if_basic(d, m, std::is_same<W, view_t>());
         // kth_channel_view (compile-time channel) of the same derived view: must use the view's own x step
         kth_on_derived<0>(d, m);
         kth_on_derived<pt::nch<R>::value - 1>(d, m);
         ccv_check(d, m, std::integral_constant<bool, (ORG <= 11)>());
+    }
+    // raw data accessors exist for non-step memory views only: the image's view and its sub-images
+    template <class W> void raw_data_if_basic(W const&, mapping const&, std::false_type) {}
+    template <class W> void raw_data_if_basic(W const& d, mapping const& m, std::true_type) {
+        raw_data(d, m, std::integral_constant<bool, gil::is_planar<W>::value>());
+        mapping n = m; n.push(OP_SUBIMAGE);
+        long x0, y0, sw, sh; sub_params(d.width(), d.height(), x0, y0, sw, sh);
+        raw_data(sub_either(d, x0, y0, sw, sh), n, std::integral_constant<bool, gil::is_planar<W>::value>());
+        typename W::const_t cd(d);
+        raw_data(cd, m, std::integral_constant<bool, gil::is_planar<W>::value>());
+    }
+    // the pointer to the first channel of the view's first pixel / of plane k
+    template <class W> void raw_data(W const& d, mapping const& m, std::false_type) {
+        if (m.w == 0 || m.h == 0) return;
+        long sx, sy; m.map(0, 0, sx, sy);
+        pt::pixid const& want = s.at(sx, sy);
+        uint64_t first = want.bitpos[0]; for (int c = 1; c < want.n; ++c) if (want.bitpos[c] < first) first = want.bitpos[c];
+        ++n_pix;
+        if ((uint64_t)(uintptr_t)gil::interleaved_view_get_raw_data(d) * 8 != first)
+            vh::viol(key("raw-data-interleaved"), vh::cat("word=", m.word(), " interleaved_view_get_raw_data is not the first channel of derived(0,0)"));
+    }
+    template <class W> void raw_data(W const& d, mapping const& m, std::true_type) {
+        if (m.w == 0 || m.h == 0) return;
+        long sx, sy; m.map(0, 0, sx, sy);
+        pt::pixid const& want = s.at(sx, sy);
+        for (int k = 0; k < want.n; ++k) {
+            ++n_pix;
+            if ((uint64_t)(uintptr_t)gil::planar_view_get_raw_data(d, k) * 8 != want.bitpos[k])
+                vh::viol(key("raw-data-planar"), vh::cat("word=", m.word(), " planar_view_get_raw_data(", k, ") is not plane ", k, " of derived(0,0)"));
+        }
     }
     // colour conversion exists for the core colour spaces only (not for devicen)
     template <class W> void ccv_check(W const& d, mapping const& m, std::true_type) {
